@@ -23,8 +23,9 @@ RULE = ("ConcurrentTestSuite and ConcurrentStreamTestSuite are run with 1..4 gen
         "deadlock. Non-trivial: >= 2 context switches between workers, or a fault; distinct = distinct spec.")
 ASSUMPTIONS = [
     "instrumentation by rebinding testtools.testsuite.threading / Queue (vacuity guard: exit 2 if no fake thread was created)",
-    "for ConcurrentTestSuite result faults are not injected (its caller's result is called from the worker threads); "
-    "aborts come from make_tests",
+    "for ConcurrentTestSuite a fault in the caller's result strikes inside a worker thread: only termination "
+    "(no deadlock, run() returns, workers finished) is asserted for such cases",
+    "aborts are injected both as Exception and as non-Exception errors (an interrupt)",
     "after an abort the harness lets the remaining workers run to completion to observe what they read",
 ]
 
@@ -35,6 +36,13 @@ class Fault(Exception):
 
 class RunnerDied(BaseException):
     pass
+
+
+class Interrupt(BaseException):
+    """An abort that is not an Exception (what KeyboardInterrupt / SystemExit are)."""
+
+
+FAULTS = (Fault, Interrupt)
 
 
 KINDS = list(H.KINDS) + ["raw"]
@@ -53,8 +61,8 @@ def s_case(draw):
         for w in workers:
             w["tests"] = [k if k != "raw" else "success" for k in w["tests"]]
     fault = draw(st.one_of(st.none(), st.none(),
-                           st.builds(lambda k: {"at": "make_tests", "k": k}, st.integers(0, 4)),
-                           st.builds(lambda k: {"at": "result", "k": k}, st.integers(0, 12)) if suite == "stream" else st.none()))
+                           st.builds(lambda k, b: {"at": "make_tests", "k": k, "base": b}, st.integers(0, 4), st.booleans()),
+                           st.builds(lambda k, b: {"at": "result", "k": k, "base": b}, st.integers(0, 12), st.booleans())))
     return {"suite": suite, "workers": workers, "fault": fault, "wrap_result": draw(st.booleans()),
             "schedule": draw(st.lists(st.integers(0, 3), max_size=40))}
 
@@ -107,8 +115,8 @@ def execute(spec, schedule=None):
                 t = S.current_task()
                 caller_log.append((t.tid if t else None, name, a, kw, n))
                 f = spec["fault"]
-                if f and f["at"] == "result" and name == "status" and n == f["k"]:
-                    raise Fault("caller's result raised at event %d" % n)
+                if f and f["at"] == "result" and (name == "status" or not stream) and n == f["k"]:
+                    raise (Interrupt if f.get("base") else Fault)("caller's result raised at event %d" % n)
                 return attr(*a, **kw)
             return call
     caller = Caller()
@@ -141,7 +149,8 @@ def execute(spec, schedule=None):
                 tid = "w%d.t%d" % (self.wid, i)
                 worker_log.append((self.wid, "test", tid, kind))
                 if kind == "raw":
-                    result.status(test_id=tid, test_status="inprogress")
+                    # a full-signature forwarder passes every keyword, timestamp=None included
+                    result.status(test_id=tid, test_status="inprogress", timestamp=None)
                     result.status(test_id=tid, test_status="success")
                 else:
                     testtools.PlaceHolder(tid, outcome=H.METHOD[kind]).run(result)
@@ -157,11 +166,11 @@ def execute(spec, schedule=None):
         for i, w in enumerate(workers):
             sched.yield_point("make_tests.next")
             if f and f["at"] == "make_tests" and f["k"] == i:
-                raise Fault("make_tests raised after %d sub-suites" % i)
+                raise (Interrupt if f.get("base") else Fault)("make_tests raised after %d sub-suites" % i)
             yield (w, "r%d" % i) if stream else w
         if f and f["at"] == "make_tests" and f["k"] >= len(workers):
             sched.yield_point("make_tests.next")
-            raise Fault("make_tests raised after all sub-suites")
+            raise (Interrupt if f.get("base") else Fault)("make_tests raised after all sub-suites")
 
     wrapped = []
 
@@ -177,7 +186,7 @@ def execute(spec, schedule=None):
                 import unittest
                 suite = ts.ConcurrentTestSuite(unittest.TestSuite(), make_tests, wrap_result if spec["wrap_result"] else None)
             suite.run(caller)
-        except Fault as e:
+        except FAULTS as e:
             state["run_exc"] = e
             state["aborted"] = True
         except BaseException as e:
@@ -204,7 +213,7 @@ def execute(spec, schedule=None):
     finally:
         ts.threading, ts.Queue = saved
     for t in sched.tasks:
-        if t.error is not None and not isinstance(t.error, (Fault, RunnerDied)):
+        if t.error is not None and not isinstance(t.error, FAULTS + (RunnerDied,)):
             if t.name == "main":
                 raise HarnessError("main task raised %r" % (t.error,))
             # a worker thread died with an exception that _run_test did not contain
@@ -212,7 +221,8 @@ def execute(spec, schedule=None):
     if workers and state["threads"] == 0 and not (spec["fault"] and spec["fault"]["at"] == "make_tests" and spec["fault"]["k"] == 0):
         raise HarnessError("instrumentation no longer binds: no fake thread was created")
     fault = spec["fault"]
-    fault_fired = isinstance(state["run_exc"], Fault) or (fault and fault["at"] == "result" and state["calls"] > fault["k"])
+    fault_fired = isinstance(state["run_exc"], FAULTS) or (fault and fault["at"] == "result" and state["calls"] > fault["k"])
+    classic_result_fault = bool(fault and fault["at"] == "result" and not stream)
 
     # 1. every yielded worker ran exactly once, in its own thread
     n_yielded = len(workers) if not (fault and fault["at"] == "make_tests") else min(fault["k"], len(workers))
@@ -227,20 +237,20 @@ def execute(spec, schedule=None):
         if state["run_exc"] is None and state.get("unfinished_at_return"):
             vs.append(V("join", "returned-early", "run() returned while %r were still running" % state["unfinished_at_return"]))
         # abort: exception propagates
-        if fault_fired and fault["at"] == "make_tests" and not isinstance(state["run_exc"], Fault):
+        if fault_fired and fault["at"] == "make_tests" and not isinstance(state["run_exc"], FAULTS):
             vs.append(V("abort", "not-propagated", "make_tests raised but run() %s" % ("returned" if state["run_exc"] is None else "raised %r" % state["run_exc"])))
-        if fault and fault["at"] == "result" and state["calls"] > fault["k"] and not isinstance(state["run_exc"], Fault):
+        if fault and fault["at"] == "result" and stream and state["calls"] > fault["k"] and not isinstance(state["run_exc"], FAULTS):
             vs.append(V("abort", "not-propagated", "the caller's result raised but run() %s" % ("returned" if state["run_exc"] is None else "raised %r" % state["run_exc"])))
-        if state["run_exc"] is not None and not isinstance(state["run_exc"], Fault):
+        if state["run_exc"] is not None and not isinstance(state["run_exc"], FAULTS):
             vs.append(V("run-raises", type(state["run_exc"]).__name__, "run() raised %r" % (state["run_exc"],)))
         # abort: started workers see shouldStop afterwards
-        if isinstance(state["run_exc"], Fault):
+        if isinstance(state["run_exc"], FAULTS):
             for e in worker_log:
                 if e[1] == "shouldStop" and e[3] and not e[2]:
                     vs.append(V("abort", "stop-lost-%s" % spec["suite"], "worker %d read shouldStop == False after run() had been aborted" % e[0]))
                     break
     # 3. delivery
-    if state["run_exc"] is None and not vs:
+    if state["run_exc"] is None and not vs and not classic_result_fault:
         for w in workers:
             ran = [e for e in worker_log if e[0] == w.wid and e[1] == "test"]
             broke = w.w["raise_after"] is not None and not w.w.get("base") and not any(e[0] == w.wid and e[1] == "shouldStop" and e[2] for e in worker_log)
